@@ -103,6 +103,10 @@ class NZAnalysis:
             r1 = self._comp_sites(node.body, a, stmt, sink_desc)
             r2 = self._comp_sites(node.orelse, b, stmt, sink_desc)
             return r1 or r2
+        if isinstance(node, ast.Call) and src(node.func) == 'dict.fromkeys' and len(node.args) == 2 and not node.keywords:
+            g = self.grade(node.args[1], st)
+            self.sites.append(Site(node.args[1], stmt, g, 'dict.fromkeys value (%s)' % sink_desc, src(node.args[1])))
+            return True
         if isinstance(node, ast.Dict):
             for v in node.values:
                 g = self.grade(v, st)
